@@ -299,6 +299,31 @@ def main_c11(tier):
                 return recs
             for recs in pl.pmap(opaque_runs, targets, workers=8):
                 opaque += recs
+            # packages importing several packages that share a package NAME (text/template, html/template): the names the
+            # generator gives them must not depend on process-level randomness
+            import advgen
+            acases = []
+            for k in range(4 if quick else 12):
+                acases.append(advgen.gen_case(rng, 'i%02d' % k, types_keys=['extalias', 'extcollide', rng.choice(['ptrstruct', 'extptr', 'mapext'])],
+                                              force_async=(k % 2 == 0), ninj=1 + k % 2, nfiles=1))
+            aroot = w.path('adv-c11')
+            advgen.write_cases(aroot, acases)
+
+            def adv_runs(c):
+                recs = []
+                d = os.path.join(aroot, c.id)
+                for rp in range(6 if quick else 12):
+                    g = gmps[rp % len(gmps)]
+                    rc, so, se = pl.run_generator(cli, d, files=tuple(c.invoke), env_extra={'GOMAXPROCS': g})
+                    h = hashlib.sha256(b''.join(open(p, 'rb').read() for p in sorted(glob.glob(os.path.join(d, '*_band.go'))))).hexdigest()
+                    recs.append({'ev': 'Opaque', 'run': 'adv:%s:rep%d:g%s' % (c.id, rp, g), 'exit': rc, 'src': 'adv:' + c.id, 'outhash': h, 'expect': '',
+                                 'stderr': se[-300:]})
+                    if rp % 2 == 1:
+                        for p in glob.glob(os.path.join(d, '*_band.go')):
+                            os.remove(p)
+                return recs
+            for recs in pl.pmap(adv_runs, acases, workers=8):
+                opaque += recs
             allrec = records + opaque
             vj, st = tlc_gen(w, decls, allrec, name='c11')
             byrun = {r['run']: r for r in allrec}
@@ -308,7 +333,9 @@ def main_c11(tier):
                     continue
                 run = v['run']
                 hist = run.split(':')[1] if ':' in run else ''
-                if run.startswith('example:') or run.startswith('golden:'):
+                if run.startswith('adv:'):
+                    hist = 'same-name-imports'
+                elif run.startswith('example:') or run.startswith('golden:'):
                     hist = run.split(':')[0] + ':' + run.split(':')[2]
                 groups['%s|history=%s' % (v['clause'], hist)].append(v)
             for sig, occ in sorted(groups.items()):
